@@ -523,6 +523,13 @@ def run_check(plugin, tier, seed):
             new_mism.append(m)
     for k, m in seen_known.items():
         print(f'KNOWN-FINDING: property={pid} {known[k]}', flush=True)
+    # a listed finding that this run's sample did not meet is still listed
+    # (its kernel-checked witness in Properties/ is re-checked by the proof
+    # phase of every run)
+    for k in known:
+        if k not in seen_known:
+            print(f'KNOWN-FINDING: property={pid} {known[k]} '
+                  "[not met by this run's sample]", flush=True)
     ctx.extra['known_findings_reobserved'] = {
         k: m.to_json() for k, m in seen_known.items()}
     status = 0
